@@ -14,6 +14,7 @@ Pipeline (spec/Buffer.tla is the oracle, see its header):
      line is a finding.  The bytes.Buffer log is validated against the same specification: a
      rejection there is a specification bug -> undecided (exit 2), never a violation.
 """
+import bisect
 import collections
 import filecmp
 import json
@@ -22,7 +23,7 @@ import random
 import re
 import threading
 
-from vlib import Undecided, write_ndjson
+from vlib import SPEC, Undecided
 from tlagen import gen_mc, Raw
 
 A, NL, C3, A9, E2, X82, AC, FF = 97, 10, 0xC3, 0xA9, 0xE2, 0x82, 0xAC, 0xFF
@@ -41,7 +42,7 @@ def configs(quick):
     """(name, constants, dump?, background?) of the exhaustive runs of this tier."""
     small = dict(
         Payloads=[[], [A], [NL], [C3, A9], [C3], [A9], [A, NL]],
-        ByteArgs={A, NL, C3, A9},
+        ByteArgs={A, NL, C3, A9, 0x80},
         Runes={A, 0xE9, -1, 0x20AC},
         Counts=Raw("-1..4"), MaxLen=3, Inits={()},
         RuneSpace=rune_space(quick), DecBytes=set(DEC_QUICK if quick else DEC_FULL))
@@ -63,6 +64,43 @@ def configs(quick):
     # (name, constants, dump and replay?, run in the background while the traces are validated?)
     return [("small", small, True, False), ("medium", medium, True, False), ("large", large, False, False),
             ("big", big, False, True)]
+
+
+def impl_config(quick):
+    """Constants of BufferImpl (the storage algorithm run in lock-step with the abstract model)."""
+    c = dict(Payloads=[[], [A], [C3, A9]], Inits={(), (A,), (C3, A9)}, RuneSpace=set(), DecBytes=set(),
+             SmallBuf=2, MinReadC=2)
+    if quick:
+        c.update(ByteArgs={A}, Runes={0xE9}, Counts=Raw("-1..2"), GrowCounts=Raw("-1..3"), MaxLen=2, MaxCap=6)
+    else:
+        c.update(ByteArgs={A, C3}, Runes={0xE9, -1}, Counts=Raw("-1..3"), GrowCounts=Raw("-1..4"), MaxLen=3, MaxCap=8)
+    return c
+
+
+def impl_files(consts):
+    c = dict(consts)
+    plain = {k: c.pop(k) for k in ("MaxLen", "SmallBuf", "MinReadC", "MaxCap")}
+    c["Payloads"] = [list(p) for p in c["Payloads"]]
+    return gen_mc("MCI", "BufferImpl", c, ["SPECIFICATION ISpec", "CONSTRAINT CapBound", "INVARIANTS Agree Rel CapOK"],
+                  plain=plain)
+
+
+def refinement(ctx, quick):
+    """TLC: bytes.Buffer's storage algorithm (BufferImpl) refines the capacity-free model.  Returns
+    (result, witness_ok): the witness run breaks the abstract Grow on purpose and must be rejected."""
+    mci, cfg = impl_files(impl_config(quick))
+    r = ctx.tlc("MCI", "MCI.cfg", files={"MCI.tla": mci, "MCI.cfg": cfg}, name="buffer-impl", workers=6, timeout=2400)
+    with open(os.path.join(SPEC, "Buffer.tla")) as fh:
+        spec = fh.read()
+    broken = spec.replace("ELSE IF k <= avail THEN Ok(s) ", "ELSE IF TRUE THEN Ok(s) ")
+    if broken == spec:
+        raise Undecided("witness mutation of Buffer.tla did not apply")
+    wm, wcfg = impl_files(impl_config(True))
+    w = ctx.tlc("MCI", "MCI.cfg", files={"MCI.tla": wm, "MCI.cfg": wcfg, "Buffer.tla": broken}, name="buffer-impl-witness",
+                workers=2, timeout=600, allow_fail=True)
+    if not (set(w.invariant_violated) & {"Rel", "Agree"}):
+        raise Undecided("vacuity: a model whose Grow ignores the capacity still passes the refinement check:\n" + w.out[-2000:])
+    return r
 
 
 INVARIANTS = "TypeOK PrevShape RuneAgain UnreadLaws Conservation DelimLaw EofLaw ResetLaw"
@@ -125,7 +163,10 @@ def label_to_op(label, consts, rng):
     if name in ("ReadByte", "ReadRune", "UnreadByte", "UnreadRune", "Reset", "Len", "Bytes", "String"):
         return dict(op=name)
     if name == "Grow":
-        return dict(op="Grow", kind=args[0])
+        kind = args[0]
+        if kind == "nofit" and rng.random() < 0.5:
+            kind = "nofitbig"        # beyond the small-buffer size as well
+        return dict(op="Grow", kind=kind)
     if name == "ReadFrom":
         b = list(pl[args[0] - 1])
         fin = args[1]
@@ -223,6 +264,45 @@ def cover(nodes, edges, max_len, delim):
             cur = edges[p[-1]][2]
         behaviours.append((start, walk))
     return behaviours, n_items
+
+
+def grow_sweep(nodes, edges, delim):
+    """Grow is the one call whose outcome depends on the storage (capacity, nil slice) while it
+    keeps lastRead.  Every Grow transition + identification probe is therefore executed again
+    from each kind of constructor, reached by the shortest path, so that the first growth of a
+    fresh buffer of every kind is covered.  Returns [(start, [edge indexes], how, cap_extra)]."""
+    out = collections.defaultdict(list)
+    by_label = {}
+    for i, (s, lbl, d) in enumerate(edges):
+        out[s].append(i)
+        by_label[(s, lbl)] = i
+    startable = [n for n, v in nodes.items() if v["lr"] == 0 and not v["prev"]]
+    reach = {n: (n, []) for n in startable}
+    q = collections.deque(startable)
+    while q:
+        u = q.popleft()
+        for ei in out[u]:
+            lbl = edges[ei][1]
+            if lbl.startswith(("Grow", "Write", "ReadFrom")):
+                continue            # the access path must not grow the storage itself
+            v = edges[ei][2]
+            if v not in reach:
+                reach[v] = (reach[u][0], reach[u][1] + [ei])
+                q.append(v)
+    res = []
+    for i, (s, lbl, d) in enumerate(edges):
+        if not lbl.startswith("Grow") or s not in reach:
+            continue
+        start, path = reach[s]
+        for probe in probes_for(nodes[d], delim):
+            seq, cur = path + [i], d
+            for pl in probe:
+                ei = by_label[(cur, pl)]
+                seq.append(ei)
+                cur = edges[ei][2]
+            for how, extra in (("bytes", 0), ("string", 0), ("cap", 0), ("cap", 1), ("cap", 64), ("cap", 1024)):
+                res.append((start, seq, how, extra))
+    return res
 
 
 def vacuity_gate(nodes, edges):
@@ -341,6 +421,7 @@ def event_to_op(ev):
         del op["pb"]
     if ev["op"] == "ReadFrom":
         op.pop("fin", None)
+    op["fixed"] = True
     return op
 
 
@@ -392,6 +473,10 @@ def report(ctx, rows, bad, lock_rows, source_of):
         ctx.finding(key, what, dict(kind="buffer", behaviour=beh, observed=ev, expected=b["expected"]))
     # the lock-step cross-check: direct differences between PrintCtx and bytes.Buffer
     starts = [i for i, r in enumerate(rows) if r["op"] == "New"]
+    first_bad = {}                               # trace number -> first rejected line
+    for b in bad:
+        t = bisect.bisect_right(starts, b["line"] - 1)
+        first_bad.setdefault(t, b["line"])
     seen = set()
     for lr in lock_rows:
         t = lr["trace"]
@@ -399,7 +484,7 @@ def report(ctx, rows, bad, lock_rows, source_of):
             continue
         seen.add(t)
         line = starts[t - 1] + 1 + lr["step"] + 1
-        if any(starts[t - 1] < b["line"] - 1 <= line - 1 for b in bad):
+        if t in first_bad and first_bad[t] <= line:
             continue  # already reported through the specification
         beh, upto = behaviour_upto(rows, line)
         ctx.finding("lockstep:%s" % lr["op"],
@@ -446,6 +531,16 @@ def run(ctx, replay):
     behaviours, graph_info, gates = [], [], []
     exhaustive = True
     background = []
+    rbox = {}
+
+    def rwork():
+        try:
+            rbox["r"] = refinement(ctx, quick)
+        except Exception as ex:  # noqa: BLE001 - re-raised after join
+            rbox["ex"] = ex
+    rth = threading.Thread(target=rwork, daemon=True)
+    rth.start()
+    background.append(("impl-refinement", dict(MaxLen=impl_config(quick)["MaxLen"]), rth, rbox))
     for name, consts, dump, bg in configs(quick):
         mc, cfg = mc_files(consts, dump)
         dot = os.path.join(ctx.scratch, "graph-" + name)
@@ -477,13 +572,19 @@ def run(ctx, replay):
                 covered.update(walk)
                 ops = [label_to_op(edges[ei][1], consts, rng) for ei in walk]
                 d = nodes[start]["data"]
-                how = rng.choice(["bytes", "string", "cap", "marshal"] if d else ["zero", "bytes", "string", "cap", "cap"])
-                if how == "marshal":
-                    how = "cap"   # a marshaller's encoder starts with the record's own text, not with d
+                how = rng.choice(["bytes", "string", "cap", "cap"] if d else ["zero", "bytes", "string", "cap", "cap"])
                 behaviours.append(dict(new=dict(op="New", how=how, b=d, cap=rng.choice([0, 1, 2, 4, 8, 64, 1024])),
                                        obs="every", ops=ops))
             if len(covered) != len(edges):
                 raise Undecided("edge cover incomplete: %d of %d" % (len(covered), len(edges)))
+            sweep = grow_sweep(nodes, edges, min(consts["ByteArgs"])) if name in ("tiny", "small") else []
+            for start, seq, how, extra in sweep:
+                d = nodes[start]["data"]
+                if how == "bytes" and not d:
+                    how = "zero"
+                behaviours.append(dict(new=dict(op="New", how=how, b=d, cap=len(d) + extra), obs="every",
+                                       ops=[label_to_op(edges[ei][1], consts, rng) for ei in seq]))
+            info["grow_sweep_walks"] = len(sweep)
             info.update(graph_states=len(nodes), graph_edges=len(edges), walks=len(walks), transition_probe_items=n_items,
                         state_changing_edges=sum(1 for s, _, d in edges if s != d))
             ctx.nontrivial += info["state_changing_edges"]
@@ -494,8 +595,8 @@ def run(ctx, replay):
         rnd = [dict(seed=ctx.seed * 1000 + 1, traces=700, min_len=40, max_len=80, profile="small"),
                dict(seed=ctx.seed * 1000 + 2, traces=50, min_len=60, max_len=120, profile="big")]
     else:
-        rnd = [dict(seed=ctx.seed * 1000 + 1, traces=9000, min_len=40, max_len=100, profile="small"),
-               dict(seed=ctx.seed * 1000 + 2, traces=1500, min_len=80, max_len=200, profile="big")]
+        rnd = [dict(seed=ctx.seed * 1000 + 1, traces=20000, min_len=40, max_len=100, profile="small"),
+               dict(seed=ctx.seed * 1000 + 2, traces=4000, min_len=80, max_len=200, profile="big")]
     script = dict(seed=ctx.seed, behaviours=behaviours, random=rnd)
     # ---- 3./4. execute on PrintCtx and bytes.Buffer, validate with TLC
     pc, bad, lock_rows, identical = run_script(ctx, script, "main", 6 if quick else 14)
@@ -511,7 +612,7 @@ def run(ctx, replay):
     starts = [i for i, r in enumerate(rows) if r["op"] == "New"]
 
     def source_of(line):
-        k = sum(1 for s in starts if s <= line - 1)
+        k = bisect.bisect_right(starts, line - 1)
         return "edge cover of the TLC graph" if k <= n_graph else "seeded random driver"
 
     report(ctx, rows, bad, lock_rows, source_of)
@@ -544,7 +645,9 @@ def run(ctx, replay):
         "contents longer than 96 bytes are compared after every 12th call on average and at the end of a trace; "
         "every byte that leaves the buffer through a read is compared in full",
     ]
-    return ctx.finish(rule="every transition of the dumped exhaustive TLC graph(s) executed on PrintCtx and bytes.Buffer "
-                           "(non-trivial = state-changing transitions) + seeded random histories (non-trivial = distinct "
-                           "(call, panic, error, result-size, argument-size) signatures); all validated by TLC against BufferTrace",
+    return ctx.finish(rule="every transition of the dumped exhaustive TLC graph(s), each followed by every identification "
+                           "probe of its target state (and every Grow transition again from each constructor kind), executed "
+                           "on PrintCtx and bytes.Buffer (non-trivial = state-changing transitions) + seeded random histories "
+                           "(non-trivial = distinct (call, panic, error, result-size, argument-size) signatures); all "
+                           "validated by TLC against BufferTrace",
                       exhaustive=exhaustive)
